@@ -7,8 +7,8 @@ TRACE = ("Trace_Goal", "Trace_Goal.cfg")
 EXHAUSTIVE = True
 RULE = ("TLC enumerates goal regions per dimension and hands each one over with its probe states: all 1176 angle "
         "intervals (start -24..24, length 0..23 on the pi/12 grid) x (49 grid angles + the int 0 + 9 point-mass "
-        "velocity vectors; thorough: + magnitude-2 vectors and 8 angles beyond +-2pi); 18 regions (rect, disc, polygon, "
-        "group, lanelets) x a 13x13 half-integer probe grid for kinematic and point-mass states; all time intervals "
+        "velocity vectors; thorough: + magnitude-2 vectors and 8 angles beyond +-2pi); 24 regions (rect, disc, polygon, "
+        "group, lanelets, 6 shape groups mixing discs / rects / polygons / nested groups) x a 13x13 half-integer probe grid for kinematic and point-mass states; all time intervals "
         "on 0..6 / velocity intervals on -1..3 and 16 combinations x 95 states; 64 mixed goal states and 192 (thorough "
         "384) two-state regions x 64 mixed states, plus 16 trajectories of 1..3 states for PlanningProblem.goal_reached; "
         "plus 400 (thorough 4000) seeded random regions of 1..3 goal states with larger values, 30 states and up to 4 "
@@ -104,9 +104,26 @@ def model_check(ctx):
 
 # ---- seeded random cases: same descriptor language, larger values --------------------------------------------------
 def _rand_region(rng):
-    k = rng.choice(["rect", "disc", "poly", "group", "lanelets", "none", "none"])
+    k = rng.choice(["rect", "disc", "poly", "group", "lanelets", "mgroup", "mgroup", "none", "none"])
     if k == "none":
         return {"k": "none"}
+    if k == "mgroup":                          # mixed shape group around one spot so that members overlap; may nest once
+        x, y = rng.randint(-20, 20), rng.randint(-20, 20)
+
+        def member(depth):
+            kind = rng.choice(["rect", "disc", "disc", "poly"] + (["mgroup"] if depth == 0 else []))
+            if kind == "rect":
+                x0, y0 = x + rng.randint(-8, 8), y + rng.randint(-8, 8)
+                return {"k": "rect", "r": [x0, y0, x0 + rng.randint(1, 10), y0 + rng.randint(1, 10)]}
+            if kind == "disc":
+                return {"k": "disc", "c": [x + rng.randint(-8, 8), y + rng.randint(-8, 8)], "rad": rng.randint(2, 14)}
+            if kind == "poly":
+                while True:
+                    v = [[x + 2 * rng.randint(-6, 6), y + 2 * rng.randint(-6, 6)] for _ in range(3)]
+                    if (v[1][0] - v[0][0]) * (v[2][1] - v[0][1]) - (v[1][1] - v[0][1]) * (v[2][0] - v[0][0]) != 0:
+                        return {"k": "poly", "v": v}
+            return {"k": "mgroup", "ms": [member(1) for _ in range(rng.randint(1, 2))]}
+        return {"k": "mgroup", "ms": [member(0) for _ in range(rng.randint(1, 3))]}
 
     def rect():
         x0, y0 = rng.randint(-30, 30), rng.randint(-30, 30)
@@ -128,10 +145,16 @@ def _rand_region(rng):
     return {"k": "lanelets", "rs": [[x0 + 8 * j, y0, x0 + 8 * (j + 1), y0 + w] for j in range(n)]}
 
 
+def _leaves(pos):
+    return [x for m in pos["ms"] for x in _leaves(m)] if pos["k"] == "mgroup" else [pos]
+
+
 def _region_points(rng, pos):
     """Probe points in and around a region (doubled coordinates)."""
     if pos["k"] == "none":
         return [[rng.randint(-5, 5), rng.randint(-5, 5)]]
+    if pos["k"] == "mgroup":                   # points around every primitive member (discs: out to the full radius)
+        return [p for m in _leaves(pos) for p in _region_points(rng, m)[:4]]
     if pos["k"] == "rect":
         xs, ys = [pos["r"][0], pos["r"][2]], [pos["r"][1], pos["r"][3]]
     elif pos["k"] == "disc":
